@@ -616,8 +616,12 @@ Unmodelled(a) == ("obo" \in DOMAIN a /\ a.obo # "") \/ ("t" \in DOMAIN a /\ a.t 
                  \/ ("s" \in DOMAIN a /\ a.s \in RootSessions)
 \* a logged pre-state in which a session lists a topic that is not loaded is outside the model (it cannot arise from Init);
 \* Step stays total: such a step is not predicted (the monitors still judge it)
-Inconsistent(S, a) == "t" \in DOMAIN a /\ a.t \in Topics /\ ~S.cache[a.t].loaded
-                      /\ \E x \in Sessions : a.t \in M(S.sess[x].subs)
+\* ... likewise a stored group topic without exactly one effective owner (left behind by a store fault in the middle of an
+\* ownership transfer: three independent store calls): which of the rows the next load takes for the owner is not modelled
+Inconsistent(S, a) == "t" \in DOMAIN a /\ a.t \in Topics
+                      /\ \/ (~S.cache[a.t].loaded /\ \E x \in Sessions : a.t \in M(S.sess[x].subs))
+                         \/ (a.t \in GrpTopics /\ S.topics[a.t].exists
+                             /\ Cardinality({u \in Users : S.subs[a.t][u].st = "live" /\ "O" \in Eff(S.subs[a.t][u])}) # 1)
 DeadSession(S, a) == "s" \in DOMAIN a /\ a.s \in Sessions /\ ~S.sess[a.s].live /\ a.a # "Connect"
 \* Topic.handleMeta: a {get}/{set}/{del} from a session attached as channel reader but addressed grpXXX (or attached as member and
 \* addressed chnXXX) is answered 404 and does nothing (a reader must not be served as a member); the owner's {del topic} is decided
